@@ -134,10 +134,19 @@ def check(spec, tier, res):
                              ("extract_message", n, [n + 1]), ("project_word", n, [n - 1, n + 1])):
         if what == "project_word" and not hasattr(enc, "project_word"):
             continue
+        shapes = []
         for L in lens:
-            if L <= 0 or L % size == 0:
-                continue
-            for shape in ((L,), (2, L)):
+            if L > 0 and L % size:
+                shapes += [(L,), (2, L)]
+        # last dimensions that do not hold whole blocks although the tensor as a whole does (B rows of d | size elements): still not a layout
+        for d in [d_ for d_ in range(1, size) if size % d_ == 0][-4:]:
+            B = size // d
+            shapes += [(B, d), (B, size + d), (2 * B, d)]
+            if B % 2 == 0:
+                shapes.append((2, B // 2, d))
+        for shape in shapes:
+            L = shape[-1]
+            if True:
                 x = torch.zeros(shape, dtype=torch.float32)
                 x[..., 0] = 1
                 f = enc if what == "encode" else getattr(enc, what)
